@@ -58,6 +58,8 @@ def run(ctx, spec, units, violations, inconcl, meta):
     if err:
         inconcl.append(('M', err))
         return
+    if spec['mir'].get('validate') and not ctx.get('filter'):
+        validate_translator(root, mir, mmeta, inconcl)
     for group in ms:
         nmax, scen = group['nmax'], group['scenarios']
         if ctx.get('filter'):
@@ -104,6 +106,44 @@ def run(ctx, spec, units, violations, inconcl, meta):
                 inconcl.append(('M:' + sc, d['reason']))
             for f in d['findings']:
                 violations.append(make_violation(prop, sc, f))
+
+
+def validate_translator(root, mir, mmeta, inconcl):
+    """Translator validation: on a grid of concrete iterator states the executor's predictions (returned element, new indices, elements
+    dropped) must equal what the compiled crate does (native `mreplay validate.iter`)."""
+    from util import run as urun
+    rc, out, wall = urun(['python3-vt', os.path.join(MIRSYM, 'run.py'), mir, root, '3', 'validate.iter'], cwd=MIRSYM, timeout=900)
+    try:
+        preds = json.loads([l for l in out.splitlines() if l.startswith('{')][-1])['predictions']
+    except Exception:
+        inconcl.append(('M:validate.iter', 'no predictions: ' + out[-300:]))
+        return
+    exe, err = build_mreplay()
+    if err:
+        inconcl.append(('M:validate.iter', err))
+        return
+    rc, out, wall = urun([exe, 'validate.iter', '-'], timeout=600)
+    native = {}
+    for l in out.splitlines():
+        m = re.match(r'V n=(\d+) front=(\d+) back=(\d+) op=(\w+) arg=(\d+) ret=(\w+) len=(\d+) index=(\S+) index_back=(\S+) dropped=\[(.*)\]', l)
+        if m:
+            native[(int(m.group(1)), int(m.group(2)), int(m.group(3)), m.group(4), int(m.group(5)))] = {
+                'ret': None if m.group(6) == 'None' else int(m.group(6)), 'len': int(m.group(7)),
+                'index': None if m.group(8) == '-' else int(m.group(8)), 'dropped': [int(x) for x in m.group(10).split(',') if x.strip()]}
+    compared, bad = 0, []
+    for p in preds:
+        k = (p['n'], p['front'], p['back'], p['op'], p['arg'])
+        nv = native.get(k)
+        if nv is None:
+            continue
+        compared += 1
+        ok = p['ret'] == nv['ret'] and p['index_back'] - p['index'] == nv['len'] and sorted(p['dropped']) == sorted(nv['dropped']) and (nv['index'] is None or nv['index'] == p['index'])
+        if not ok:
+            bad.append({'case': k, 'predicted': p, 'native': nv})
+    mmeta['traces_validated_against_impl'] = compared
+    mmeta['translator_disagreements'] = bad[:5]
+    if bad or compared < 100:
+        inconcl.append(('M:validate.iter', 'the executor disagrees with the compiled crate on %d of %d concrete cases (or too few compared): %s' % (len(bad), compared, json.dumps(bad[:2])[:400])))
 
 
 def z3_version():
